@@ -1401,6 +1401,7 @@ func checkC11(w *World, r *Report) {
 		r.undecided("C11.local", nil, "evaluator model", token.NoPos, m.why)
 	}
 	capturedStateRule(w, r, e, "C11.captured-state")
+	sharedObjectsRule(w, r, "C11.shared-objects")
 	sharedStateRule(w, r, "C11.package-state")
 	// the positions of the forms of a shared function are shared with the function: every evaluation that fails
 	// there reads them (to print the error); nothing writes into a position it did not make itself
